@@ -161,3 +161,32 @@ func TestDocxTableContentModel(t *testing.T) {
 		last = i
 	}
 }
+
+// C16 / R16.9 (ODT): rows inside <table:table-header-rows> (written by LibreOffice for every table whose heading
+// row repeats), lists, headings and nested tables inside a cell, and headings inside a list item were not decoded.
+func TestOdtTableContentModel(t *testing.T) {
+	cell := func(s string) string { return `<table:table-cell>` + s + `</table:table-cell>` }
+	p := odtOf(t, `<table:table table:name="T"><table:table-column table:number-columns-repeated="2"/>`+
+		`<table:table-header-rows><table:table-row>`+cell(`<text:p>headA</text:p>`)+cell(`<text:p>headB</text:p>`)+`</table:table-row></table:table-header-rows>`+
+		`<table:table-row>`+cell(`<text:p>plain</text:p>`)+cell(`<text:list><text:list-item><text:p>incell</text:p></text:list-item></text:list>`)+`</table:table-row>`+
+		`<table:table-rows><table:table-row>`+cell(`<text:h text:outline-level="2">cellhead</text:h>`)+
+		cell(`<text:p>outer</text:p><table:table table:name="N"><table:table-column/><table:table-row>`+cell(`<text:p>nested</text:p>`)+`</table:table-row></table:table>`)+`</table:table-row></table:table-rows>`+
+		`</table:table>`+
+		`<text:list><text:list-item><text:h text:outline-level="1">listhead</text:h></text:list-item><text:list-item><text:p>item</text:p></text:list-item></text:list>`)
+	txt, _, err := tabula.Open(p).Text()
+	if err != nil {
+		t.Fatal(err)
+	}
+	last := -1
+	for _, w := range []string{"headA", "headB", "plain", "incell", "cellhead", "outer", "nested", "listhead", "item"} {
+		i := strings.Index(txt, w)
+		if i < 0 || strings.Count(txt, w) != 1 {
+			t.Errorf("%q returned %d times in %q, want once", w, strings.Count(txt, w), txt)
+			continue
+		}
+		if i < last {
+			t.Errorf("%q out of document order in %q", w, txt)
+		}
+		last = i
+	}
+}
